@@ -41,8 +41,8 @@ def slices(tier):
     if not q:
         out += [
             Slice("self-simplifying3", [F, U], SS, 3, lits=[LIT["one"]], idx=(10,), levels=[SS, SS, SS], mikinds=("fixed",), **kw),
-            Slice("ops3", [F, U], ALL - {"det", "inv", "dev", "skew", "sym", "perp", "transpose", "tr"}, 3, idx=(10,), lits=[LIT["one"], LIT["zero"]], mikinds=("name", "fixed"), **kw),
-            Slice("passes-wide", [F, U, V, A], ALL, 3, idx=(10, 11), lits=[LIT["two"], LIT["zero"]], finalops=PASSES, only_final=True, levels=[ALL - {"pow", "div", "sqrt"}, ALL - {"pow", "div", "sqrt", "det", "inv"}, PASSES], **kw),
+            Slice("ops3", [F, U], ALL - {"det", "inv", "dev", "skew", "sym", "perp", "transpose", "tr"}, 3, idx=(10,), lits=[LIT["one"], LIT["zero"]], mikinds=("name", "fixed"), simulate=1500, depth=6, **kw),
+            Slice("passes-wide", [F, U, V, A], ALL, 3, idx=(10, 11), lits=[LIT["two"], LIT["zero"]], finalops=PASSES, only_final=True, levels=[ALL - {"pow", "div", "sqrt"}, ALL - {"pow", "div", "sqrt", "det", "inv"}, PASSES], simulate=1500, depth=6, **kw),
         ]
     return out
 
